@@ -3,7 +3,7 @@
 HDate wraps a concrete datetime.date / datetime.datetime, HDelta a timedelta, HTz a tzinfo.  Every operation the repository
 applies is delegated to the host object (pure functions of the standard library), except the ones that depend on the process
 environment: `astimezone()` without an argument and `timestamp()` of a naive value use the scenario's local zone (a fixed
-UTC offset; DST transitions are not modelled), `now()` / `today()` are opaque.
+UTC offset or a zoneinfo zone with DST rules), `now()` / `today()` are opaque.
 """
 import ast
 import datetime as _dt
@@ -164,7 +164,11 @@ class DatetimeMixin:
                     tz = unwrap(args[0]) if args else unwrap(kw.get('tz'))
                     if d.tzinfo is None:
                         d = d.replace(tzinfo=self.local_tz)       # a naive value is local time
-                    return wrap(d.astimezone(tz if tz is not None else self.local_tz))
+                    if tz is not None:
+                        return wrap(d.astimezone(tz))
+                    r = d.astimezone(self.local_tz)
+                    # like CPython: the result of astimezone() without an argument carries a FIXED-offset tzinfo (the offset in force at that instant), not the zone's rules
+                    return wrap(r.replace(tzinfo=_dt.timezone(r.utcoffset())))
                 if m == 'date' and isinstance(d, _dt.datetime):
                     return wrap(d.date())
                 if m == 'utcoffset' and isinstance(d, _dt.datetime):
